@@ -321,7 +321,12 @@ func (ci *ConstructorInvoker) invokeWithRecovery(info *ConstructorInfo, args []r
 		}
 	}()
 
-	results = info.Value.Call(args)
+	// The analyzer treats a variadic parameter as one dependency on the slice type: hand the resolved slice over as is
+	if info.Type.IsVariadic() {
+		results = info.Value.CallSlice(args)
+	} else {
+		results = info.Value.Call(args)
+	}
 	return results, nil
 }
 
